@@ -412,3 +412,22 @@ func (h *History) HasUncommitted() bool {
 	}
 	return h.Work.Version == 0
 }
+
+// Clone returns a copy of the history (nodes are immutable and shared).
+func (h *History) Clone() *History {
+	c := *h
+	c.Roots = make(map[int64]*Node, len(h.Roots))
+	for k, v := range h.Roots {
+		c.Roots[k] = v
+	}
+	c.Hashes = make(map[int64][]byte, len(h.Hashes))
+	for k, v := range h.Hashes {
+		c.Hashes[k] = v
+	}
+	return &c
+}
+
+// NewCommitted builds an already committed node (used to load trees written by another library).
+func NewCommitted(key, value []byte, height int8, size, version int64, left, right *Node) *Node {
+	return &Node{Key: key, Value: value, Height: height, Size: size, Version: version, Nonce: 0, Left: left, Right: right}
+}
